@@ -616,8 +616,17 @@ def h_seq(eng, case):
                mk_pkt('/k/d/2', other),           # sibling key on a name it may not sign
                mk_pkt('/k/od/2', leaf),           # leaf key on a name it may not sign
                mk_pkt('/k/e/1', leaf)]            # name outside the schema
+    # a packet the leaf key MAY sign by name, with other content, carrying the signature value of packet 0 (a replay of a
+    # signature the validator has seen and accepted): it verifies under no key
+    fw = list(blist(tobytes(enc.make_data('/k/d/7', enc.MetaInfo(), b'what the key holder never wrote', leaf))))
+    g = list(blist(packets[0]))
+    _, gvs, gve = ref.parse_data(g, ref.CERT)['#region']['sigvalue']
+    _, fvs, fve = ref.parse_data(fw, ref.CERT)['#region']['sigvalue']
+    if gve - gvs == fve - fvs:
+        fw[fvs:fve] = g[gvs:gve]
+        packets.append(tobytes(bwrap(fw)))
     expect = [ref_chain(W, rschema, p) for p in packets]
-    eng.check(expect[0] and expect[1] and not (expect[2] or expect[3] or expect[4]), 'reference-sanity')
+    eng.check(expect[0] and expect[1] and not any(expect[2:]), 'reference-sanity')
     n = case['len']
     seq = [eng.choice(len(packets), 'pkt%d' % i) for i in range(n)]
 
